@@ -60,7 +60,7 @@ func H_compile() {
 	expr := vInputExpr()
 	vNote("expr", expr)
 	var e, e2, e3 *Expr
-	var err, err2 error
+	var err, err2, err4 error
 	ns := map[string]string(nil)
 	switch vParam("ns") {
 	case "empty":
@@ -72,6 +72,7 @@ func H_compile() {
 		e, err = Compile(expr)
 		e2, err2 = CompileWithNS(expr, ns)
 		e3 = MustCompile(expr)
+		_, err4 = Compile(expr)
 	})
 	vObserve("panic-class", cls)
 	vObserve("compiled", err == nil)
@@ -97,6 +98,11 @@ func H_compile() {
 		})
 		vObserve("use-panic-class", use)
 		vAssert(use != 1, "returned-expression-is-usable")
+	}
+	// the verdict on one input is the same every time it is compiled
+	vAssert((err == nil) == (err4 == nil), "same-verdict-when-compiled-again")
+	if ns == nil {
+		vAssert((err == nil) == (err2 == nil), "same-verdict-with-nil-namespace-map")
 	}
 	vAssert((e2 != nil && e2.q != nil && err2 == nil) || (e2 == nil && err2 != nil), "exactly-one-of-expr-error:ns")
 	vAssert(e3 != nil && e3.q != nil, "mustcompile-usable")
